@@ -365,6 +365,9 @@ func (h *histRun) exec(o HOp) (outT string, rec any) {
 		return "(RInt " + coqZ(n) + ")", n
 	case "isfull":
 		b := s.IsFull()
+		if s.CapReached() != b && h.invariant == "" {
+			h.invariant = fmt.Sprintf("CapReached() = %v, IsFull() = %v: the deprecated spelling answers differently", !b, b)
+		}
 		return "(RBool " + coqBool(b) + ")", b
 	case "cannest":
 		b := s.CanNest()
@@ -683,6 +686,31 @@ func genHist(ctx *Ctx, emit func(any, string)) {
 		}
 	}
 	rec(nil, depth)
+	// long stacks: a batch of 1200 values in one Push (with and without a limit of
+	// 1000), then every mutator far from the ends
+	for _, cp := range []int{-1, 1000} {
+		for _, fifo := range []int{0, 1} {
+			batch := make([]int, 1200)
+			for i := range batch {
+				batch[i] = 1 + i%9
+			}
+			probe := []HOp{{Op: "len"}, {Op: "index", I: 0}, {Op: "index", I: 600}, {Op: "index", I: 999}, {Op: "index", I: 1199},
+				{Op: "front"}, {Op: "back"}, {Op: "cap"}, {Op: "avail"}, {Op: "isfull"}}
+			in := HistInput{Kind: "OR", Cap: cp}
+			if fifo == 1 {
+				in.Ops = append(in.Ops, HOp{Op: "setfifo", I: 1})
+			}
+			in.Ops = append(in.Ops, HOp{Op: "push", Vs: batch})
+			in.Ops = append(in.Ops, probe...)
+			for _, m := range []HOp{{Op: "pop"}, {Op: "pop"}, {Op: "insert", Vs: []int{77}, I: 700}, {Op: "remove", I: 950}, {Op: "replace", Vs: []int{88}, I: 900},
+				{Op: "swap", I: 3, J: 940}, {Op: "reverse"}, {Op: "push", Vs: []int{5, 6, 7}}, {Op: "remove", I: 0}} {
+				in.Ops = append(in.Ops, m)
+				in.Ops = append(in.Ops, probe...)
+			}
+			in.Ops = append(in.Ops, HOp{Op: "reset"}, HOp{Op: "len"}, HOp{Op: "cap"}, HOp{Op: "push", Vs: []int{1}}, HOp{Op: "len"})
+			emit(in, "exhaustive")
+		}
+	}
 	// long runs of nil elements at either end (Front / Back look past them, however long)
 	for _, run := range []int{49, 50, 51, 64, 130} {
 		nils := make([]int, run)
